@@ -29,10 +29,10 @@ ROWS = {
  "elevate_thorough": dict(acts=S("CvDegreeIncrease"), props=["ElevatePreserves"], pts='"gen", "unit"', wts='"none", "gen", "gen2"', degs="DegsT", maxnpts=6),
  "split_quick": dict(acts=S("CvSplit", "CvSplitJoin"), props=["SplitRestricts"], maxnpts=4),
  "split_thorough": dict(acts=S("CvSplit", "CvSplitJoin"), props=["SplitRestricts"], pts='"gen", "unit"', wts='"none", "gen", "gen2"', degs="DegsT", maxnpts=6),
- "remove_quick": dict(acts=S("CvKnotInsert", "CvKnotRemove"), scenario="history", prep=1, depth=2, maxnpts=4, nodesize=2, props=["RemoveExactOrRefused"], wts='"none", "gen", "const"', pts='"gen", "homlin"'),
+ "remove_quick": dict(acts=S("CvKnotInsert", "CvKnotRemove"), scenario="history", prep=1, depth=2, maxnpts=4, nodesize=2, props=["RemoveExactOrRefused"], wts='"none", "gen", "const"', pts='"gen", "homlin", "negw"'),
  "remove_thorough": dict(acts=S("CvKnotInsert", "CvKnotRemove"), scenario="history", prep=1, depth=2, maxnpts=5, degs="DegsT", nodesize=2, props=["RemoveExactOrRefused"], wts='"none", "gen", "gen2"'),
  "remove_narrow_quick": dict(acts=S("CvKnotRemove", "CvDegreeDecrease"), breaks="BreaksN", degs="DegsN", maxnpts=5, nodesize=2, wts='"none", "gen"', pts='"gen", "pos"'),
- "decrease_quick": dict(acts=S("CvDegreeIncrease", "CvDegreeDecrease"), scenario="history", prep=1, depth=2, maxnpts=4, props=["ReduceExactOrRefused"], wts='"none", "gen", "const"', pts='"gen", "homlin"'),
+ "decrease_quick": dict(acts=S("CvDegreeIncrease", "CvDegreeDecrease"), scenario="history", prep=1, depth=2, maxnpts=4, props=["ReduceExactOrRefused"], wts='"none", "gen", "const"', pts='"gen", "homlin", "negw"'),
  "decrease_thorough": dict(acts=S("CvDegreeIncrease", "CvDegreeDecrease"), scenario="history", prep=1, depth=2, maxnpts=5, degs="DegsT", props=["ReduceExactOrRefused"], wts='"none", "gen", "gen2"'),
  "join_quick": dict(acts=S("CvSplitTake", "CvJoin"), depth=2, maxnpts=4, omax=3, props=["JoinRestores"], wts='"none", "gen"'),
  "join_thorough": dict(acts=S("CvSplitTake", "CvJoin"), depth=2, maxnpts=5, omax=4, degs="DegsT", props=["JoinRestores"], wts='"none", "gen"'),
@@ -40,7 +40,7 @@ ROWS = {
  "arith_thorough": dict(acts=S("CvArith", "CvScalar"), maxnpts=5, omax=4, pts='"gen", "pos"', wts='"none", "gen", "gen2"'),
  "eq_quick": dict(acts=S("CvEq"), maxnpts=4, pts='"gen", "flat"'),
  "eq_thorough": dict(acts=S("CvEq"), maxnpts=5, degs="DegsT", wts='"none", "gen", "gen2", "const"', pts='"gen", "flat"'),
- "clean_quick": dict(acts=S("CvKnotInsert", "CvDegreeIncrease", "CvClean"), scenario="history", prep=1, depth=3, maxnpts=4, nodesize=1, props=["CleanProps"], wts='"none", "gen"', pts='"gen", "homlin", "bump"'),
+ "clean_quick": dict(acts=S("CvKnotInsert", "CvDegreeIncrease", "CvClean"), scenario="history", prep=1, depth=3, maxnpts=4, nodesize=1, props=["CleanProps"], wts='"none", "gen"', pts='"gen", "homlin", "bump", "negw"'),
  "wide_clean_quick": dict(acts=S("CvKnotInsert", "CvClean"), scenario="history", prep=1, depth=2, breaks="BreaksW", degs="DegsW", maxnpts=9, nodesize=1, props=["CleanProps"], wts='"none"', pts='"gen"'),
  "clean_thorough": dict(acts=S("CvKnotInsert", "CvDegreeIncrease", "CvClean"), scenario="history", prep=2, depth=4, maxnpts=4, nodesize=1, props=["CleanProps"], wts='"none", "gen", "const"', pts='"gen", "homlin", "bump"'),
  "misc_quick": dict(acts=S("CvCopy", "CvFraction"), maxnpts=4),
@@ -50,6 +50,7 @@ ROWS = {
  "integ_thorough": dict(acts=S("CvIntegrate", "IntegrateFn"), props=["IntegralAgrees"], wts='"none"', degs="Degs4", maxnpts=8, pts='"gen", "unit"'),
  "fitcurve_quick": dict(acts=S("CvFitCurve", "CvFitInRational"), wts='"none"', pts='"pos", "ratlin"', maxnpts=4, omax=4),
  "fitcurve_gap_quick": dict(acts=S("CvFitCurve"), wts='"none"', pts='"pos"', degs="Degs3", odegs="Degs0", maxnpts=5, omax=3),
+ "fitcurve_bezier_quick": dict(acts=S("CvFitCurve"), wts='"none"', pts='"pos"', breaks="BreaksB", degs="Degs6", odegs="Degs7", maxnpts=14, omax=15),
  "fitcurve_thorough": dict(acts=S("CvFitCurve", "CvFitInRational"), wts='"none"', pts='"pos", "ratlin"', maxnpts=5, omax=5, degs="DegsT", odegs="DegsT"),
  "fitpoints_quick": dict(acts=S("CvFitPoints", "CvFitFunction"), pts='"pos"', maxnpts=4),
  "fitpoints_thorough": dict(acts=S("CvFitPoints", "CvFitFunction"), pts='"pos"', maxnpts=6, degs="DegsT", wts='"none", "gen", "gen2"'),
